@@ -211,6 +211,7 @@ def inb_decode_for(params):
         cfg = dict(role=role, ver=ver, gate_pub=1, gate_proto=1 if params["gp"] == "TRUE" else 0,
                    max_qos=2, max_receive=0 if ver == 3 else 16, max_receive_size=0)
         cmds = [handshake(role, ver)]
+        npub = [0]
         for t in tokens:
             if t[0] == "i":
                 kind, i, mode = t[1:].split(":")
@@ -219,7 +220,13 @@ def inb_decode_for(params):
                     cmds.append({"c": "arm", "o": mode, "code": 135})
                 if kind in PKT:
                     q = PKT[kind][1]
-                    cmds.append({"c": "in", "p": {"t": "publish", "q": q, "id": i if q else 0, "topic": "t", "plen": 1}})
+                    p = {"t": "publish", "q": q, "id": i if q else 0, "topic": "t", "plen": 1 + (i % 2) * 2, "fill": 0x61 + i + q}
+                    npub[0] += 1
+                    if npub[0] % 2 == 0:          # every second publish: flags and (MQTT 5) properties
+                        p.update(retain=1 if q != 2 else 0, dup=1 if q == 1 else 0)
+                        if ver == 5:
+                            p.update(up=1 + npub[0] % 3, ct="text/x", rt="re/ply", cd="corr", mei=7, pfi=1)
+                    cmds.append({"c": "in", "p": p})
                 elif kind == "pubrel":
                     cmds.append({"c": "in", "p": {"t": "pubrel", "id": i}})
                 elif kind == "sub":
